@@ -51,6 +51,8 @@ Cat ==
   ("mismatched_end"          :> M(End, "survey", FALSE, "row")) @@
   ("choice_noname"           :> M({"L", "M"}, "choices", FALSE, "row")) @@
   ("dup_choice"              :> M({"L", "M"}, "choices", FALSE, "row")) @@
+  ("dup_choice_labelless"    :> M({"L", "M"}, "choices", FALSE, "row")) @@
+  ("dup_choice_first_labelless" :> M({"L", "M"}, "choices", FALSE, "row")) @@
   ("unclosed_begin"          :> M(End, "survey", TRUE, "ident")) @@
   ("dup_sibling"             :> M(Named, "survey", FALSE, "ident")) @@
   ("dup_sibling_case"        :> M(Named, "survey", FALSE, "ident")) @@
